@@ -270,7 +270,7 @@ func TestC03_OrderIndependent(t *testing.T) {
 	ev := harn.For("C03").Rule(c03Rule)
 	ev.Floor("op:overwrite", "ops", 0.05)
 	ev.Floor("op:recreate", "ops", 0.02)
-	harn.Check(t, 4000, 120000, func(t *rapid.T) {
+	harn.Check(t, 12000, 600000, func(t *rapid.T) {
 		keys := c03Keys(t, 24)
 		nops := rapid.IntRange(1, 80).Draw(t, "nops")
 		ops, model, rewrites, classes := c03History(t, keys, nops, false)
@@ -306,7 +306,7 @@ func TestC03_LongHistoryModel(t *testing.T) {
 	if harn.Thorough() {
 		maxOps = 2000
 	}
-	harn.Check(t, 400, 9000, func(t *rapid.T) {
+	harn.Check(t, 1500, 48000, func(t *rapid.T) {
 		keys := c03Keys(t, 60)
 		db := overlaydb.NewOverlayDB(nil)
 		reused := rapid.Bool().Draw(t, "reuseAfterReset")
@@ -371,7 +371,7 @@ func TestC03_LongHistoryModel(t *testing.T) {
 // Exhaustive small space: every history of length <= 4 over 2 keys and values {delete, put-empty, "x", "y"} is
 // compared with the model, and all histories are grouped by final content: one hash per group.
 func TestC03_ExhaustiveTiny(t *testing.T) {
-	ev := harn.For("C03").Rule("tiny: all histories of length 1..5 over keys {\"a\",\"ab\"} x ops {Delete, Put empty, Put x, Put y}; non-trivial = length >= 2")
+	ev := harn.For("C03").Rule("tiny: all histories of length 1..5 (thorough 1..6) over keys {\"a\",\"ab\"} x ops {Delete, Put empty, Put x, Put y}; non-trivial = length >= 2")
 	keys := [][]byte{[]byte("a"), []byte("ab")}
 	type opk struct {
 		k   int
@@ -397,6 +397,9 @@ func TestC03_ExhaustiveTiny(t *testing.T) {
 	}
 	groups := map[string][32]byte{}
 	maxLen := 5
+	if harn.Thorough() {
+		maxLen = 6
+	}
 	idx := 0
 	var rec func(cur []c03Op)
 	rec = func(cur []c03Op) {
